@@ -791,13 +791,14 @@ def Op.isDictMul : Op → Bool
 
 /-- the ancilla counter after an edit: reset by `clear`, advanced by a constraint, otherwise unchanged
 (for `*=` by a dict and `**=` only with the D2 repair) -/
+def ancAfter (s : State) : Op → Nat
+  | .clear => 0
+  | .cons r P lam lt lo hi =>
+    if hasCons s.kind then (consDelta s.kind s.ancilla r P lam lt (lo, hi)).2.1 else s.ancilla
+  | _ => s.ancilla
+
 theorem step_anc {fx : Fix} (s : State) (op : Op) (hmul : fx.d2 = true ∨ op.isDictMul = false) :
-    (step fx s op).1.ancilla =
-      match op with
-      | .clear => 0
-      | .cons r P lam lt lo hi =>
-        if hasCons s.kind then (consDelta s.kind s.ancilla r P lam lt (lo, hi)).2.1 else s.ancilla
-      | _ => s.ancilla := by
+    (step fx s op).1.ancilla = ancAfter s op := by
   cases op with
   | setitem k v =>
     simp only [step]; cases h : setitem fx s k v with
@@ -840,7 +841,7 @@ theorem step_anc {fx : Fix} (s : State) (op : Op) (hmul : fx.d2 = true ∨ op.is
       | none => exact h1
       | some e => rfl
   | cons r P lam lt lo hi =>
-    simp only [step]
+    simp only [step, ancAfter]
     split
     · rw [iaddLoop_anc]
     · rfl
@@ -859,7 +860,7 @@ theorem step_I4 {fx : Fix} (s : State) (op : Op) (hmul : fx.d2 = true ∨ op.isD
   cases op with
   | clear => exact (closed_AncB fx 0).init s.kind
   | cons r P lam lt lo hi =>
-    simp only
+    simp only [ancAfter]
     by_cases hc : hasCons s.kind = true
     · rw [if_pos hc]
       obtain ⟨h1, h2⟩ := hop hc
